@@ -449,9 +449,10 @@ def rule_policy(fx, rep):
         idx0 = st[0][1]
         emp_e, pol_e = admitting_edges(ins, idx0, dataarg)
         # the increment happens only on the empty-slot side ...
-        good = bool(adds) and bool(emp_e) and ib not in ins.reachable(0, removed_edges=emp_e)
+        cfg_only = ib not in ins.reachable(0, removed_edges=emp_e)
+        good = bool(adds) and bool(emp_e)
         # ... and every run that takes the empty-slot edge both increments and stores before returning
-        edge_ok = good
+        edge_ok = good and cfg_only
         for (a, tgt) in emp_e:
             edge_ok = edge_ok and ins.must_pass(tgt, [ib], ins.return_blocks()) and ins.must_pass(tgt, [empties[0]], ins.return_blocks())
         if good and not edge_ok:
